@@ -12,7 +12,8 @@
 //@     matching_fn: &dyn Fn(&mut Matching<F>),
 //@     inputs: &F::Inputs<'_>,
 //@     diagnostics: bool,
-//@ ) -> (Option<bool>, alloc::Vec<(usize, u8)>) {
+//@ ) -> (Option<bool>, usize, u8, [u8; 8]) {
+//@     // returns: verdict, number of recorded mismatches, bit mask of their argument positions, kind per position
 //@     let pattern = call_pattern::CallPattern {
 //@         input_matcher: call_pattern::DynInputMatcher::from_matching_fn::<F>(matching_fn),
 //@         responders: alloc::vec![],
@@ -22,19 +23,28 @@
 //@     let res = if diagnostics {
 //@         let mut reporter = private::MismatchReporter::new_enabled();
 //@         let r = pattern.match_inputs::<F>(inputs, Some(&mut reporter)).ok();
-//@         let mut v = alloc::Vec::with_capacity(8);
+//@         let mut mask = 0u8;
+//@         let mut kinds = [255u8; 8];
+//@         let mut dup = false;
 //@         for (index, mismatch) in reporter.mismatches.iter() {
 //@             let kind = match mismatch.kind {
 //@                 mismatch::MismatchKind::Pattern => 0u8,
 //@                 mismatch::MismatchKind::Eq => 1u8,
 //@                 mismatch::MismatchKind::Ne => 2u8,
 //@             };
-//@             v.push((index.0, kind));
+//@             if index.0 < 8 {
+//@                 if (mask >> index.0) & 1 == 1 { dup = true; }
+//@                 mask |= 1 << index.0;
+//@                 kinds[index.0] = kind;
+//@             } else {
+//@                 dup = true;
+//@             }
 //@         }
+//@         let n = if dup { usize::MAX } else { reporter.mismatches.len() };
 //@         core::mem::forget(reporter);
-//@         (r, v)
+//@         (r, n, mask, kinds)
 //@     } else {
-//@         (pattern.match_inputs::<F>(inputs, None).ok(), alloc::Vec::new())
+//@         (pattern.match_inputs::<F>(inputs, None).ok(), 0, 0, [255u8; 8])
 //@     };
 //@     core::mem::forget(pattern);
 //@     res
@@ -97,12 +107,18 @@ mock_fn!(FString, String);
 mock_fn!(FSlice, &'i [u8]);
 mock_fn!(FStr2, (&'i str, u8));
 
-fn verdicts<F: MockFn>(m: &dyn Fn(&mut unimock::private::Matching<F>), inputs: &F::Inputs<'_>) -> (bool, bool, Vec<(usize, u8)>) {
+pub struct Mism {
+    n: usize,
+    mask: u8,
+    kinds: [u8; 8],
+}
+
+fn verdicts<F: MockFn>(m: &dyn Fn(&mut unimock::private::Matching<F>), inputs: &F::Inputs<'_>) -> (bool, bool, Mism) {
     let off = unimock::__verif_match::<F>(m, inputs, false);
     let on = unimock::__verif_match::<F>(m, inputs, true);
     // a matcher function is always supplied by matching!
     assert!(off.0.is_some() && on.0.is_some());
-    (off.0.unwrap(), on.0.unwrap(), on.1)
+    (off.0.unwrap(), on.0.unwrap(), Mism { n: on.1, mask: on.2, kinds: on.3 })
 }
 
 fn check(off: bool, on: bool, expect: bool) {
@@ -113,22 +129,21 @@ fn check(off: bool, on: bool, expect: bool) {
 }
 
 /// C19: the recorded mismatch positions are exactly `rejecting` (a bit mask over argument positions), each once, with `kind`.
-fn check_positions(expect: bool, mism: &Vec<(usize, u8)>, rejecting: u8, kinds: [u8; 4], n_args: usize) {
+fn check_positions(expect: bool, mism: &Mism, rejecting: u8, kinds: [u8; 4], n_args: usize) {
     if expect {
-        assert!(mism.len() == 0);
+        assert!(mism.n == 0);
         return;
     }
-    let mut seen: u8 = 0;
+    assert!(mism.n != usize::MAX); // no position twice, none out of range
+    assert!(mism.mask == rejecting);
+    assert!(mism.n == rejecting.count_ones() as usize);
     let mut i = 0;
-    while i < mism.len() {
-        let (pos, kind) = mism[i];
-        assert!(pos < n_args);
-        assert!((seen >> pos) & 1 == 0); // each position at most once
-        seen |= 1 << pos;
-        assert!(kind == kinds[pos]);
+    while i < n_args {
+        if (rejecting >> i) & 1 == 1 {
+            assert!(mism.kinds[i] == kinds[i]);
+        }
         i += 1;
     }
-    assert!(seen == rejecting);
 }
 
 fn any_str() -> &'static str {
@@ -166,6 +181,7 @@ fn inst_range_or_option() {
 #[kani::proof]
 #[kani::unwind(10)]
 #[kani::stub(alloc::fmt::format, fmt_stub)]
+#[kani::solver(minisat)]
 fn inst_lit_some_range() {
     let i: (u8, Option<i8>) = (kani::any(), kani::any());
     let (off, on, mism) = verdicts::<F2>(matching!(7, Some(-3..=3)), &i);
@@ -183,6 +199,7 @@ fn inst_lit_some_range() {
 #[kani::proof]
 #[kani::unwind(10)]
 #[kani::stub(alloc::fmt::format, fmt_stub)]
+#[kani::solver(minisat)]
 fn inst_wild_first_three_args() {
     let i: (u8, bool, i8) = (kani::any(), kani::any(), kani::any());
     let (off, on, mism) = verdicts::<F3>(matching!(_, true, -1), &i);
@@ -254,6 +271,7 @@ fn inst_struct_and_tuple() {
 #[kani::proof]
 #[kani::unwind(10)]
 #[kani::stub(alloc::fmt::format, fmt_stub)]
+#[kani::solver(minisat)]
 fn inst_eq_ne() {
     let i: (u8, u8) = (kani::any(), kani::any());
     let (off, on, mism) = verdicts::<F2uu>(matching!(eq!(&5), ne!(&7)), &i);
@@ -280,6 +298,7 @@ fn inst_alternatives_eq_diagonal() {
 #[kani::proof]
 #[kani::unwind(10)]
 #[kani::stub(alloc::fmt::format, fmt_stub)]
+#[kani::solver(minisat)]
 fn inst_alternatives_plain() {
     let i: (u8, Option<i8>) = (kani::any(), kani::any());
     let (off, on, _) = verdicts::<F2>(matching!((1 | 2, _) | (3 | 4, Some(0))), &i);
@@ -386,6 +405,7 @@ fn inst_slice_rest() {
 #[kani::proof]
 #[kani::unwind(10)]
 #[kani::stub(alloc::fmt::format, fmt_stub)]
+#[kani::solver(minisat)]
 fn inst_str_and_lit() {
     let i: (&str, u8) = (any_str(), kani::any());
     let (off, on, mism) = verdicts::<FStr2>(matching!("b", 3), &i);
